@@ -141,6 +141,8 @@ class OvrCTarget(_tc.CTarget):
         for i, d in enumerate(ns_dirs):
             cmd = [PY, '-m', 'nunavut', '--target-language', 'c', '--outdir', outdir, '--allow-unregulated-fixed-port-id',
                    '--enable-override-variable-array-capacity', '--target-endianness', self.options.get('target_endianness', 'any')]
+            if self.options.get('enable_serialization_asserts'):
+                cmd.append('--enable-serialization-asserts')
             for j, o in enumerate(ns_dirs):
                 if j != i:
                     cmd += ['-I', o]
@@ -174,7 +176,8 @@ def build(repo: str, workdir: str) -> typing.Tuple[typing.Dict[str, str], str]:
     src = os.path.join(workdir, 'probe.c')
     with open(src, 'w', encoding='utf-8') as f:
         f.write(DRIVER)
-    for gen_name, flags in (('gen_ovr', ['--enable-override-variable-array-capacity']), ('gen_plain', [])):
+    for gen_name, flags in (('gen_ovr', ['--enable-override-variable-array-capacity']), ('gen_plain', []),
+                            ('gen_ovr_as', ['--enable-override-variable-array-capacity', '--enable-serialization-asserts'])):
         out = os.path.join(workdir, gen_name)
         p = _run([PY, '-m', 'nunavut', '--target-language', 'c', '--target-endianness', 'any', '--outdir', out] + flags + [ns], env=env)
         log += p.stdout + p.stderr
@@ -185,6 +188,9 @@ def build(repo: str, workdir: str) -> typing.Tuple[typing.Dict[str, str], str]:
         'ovr': base + ['-I', os.path.join(workdir, 'gen_ovr'), '-Dc04p_B_1_0_xs_ARRAY_CAPACITY_=2', '-Dc04p_S_1_0_v_ARRAY_CAPACITY_=2'],
         'std': base + ['-I', os.path.join(workdir, 'gen_ovr')],
         'plain': base + ['-I', os.path.join(workdir, 'gen_plain')],
+        # both options together with REDUCED capacities: a valid serialization must not trip an assertion
+        'ovr_as': base + ['-I', os.path.join(workdir, 'gen_ovr_as'), '-DNUNAVUT_ASSERT=assert', '-Dc04p_B_1_0_xs_ARRAY_CAPACITY_=2',
+                          '-Dc04p_S_1_0_v_ARRAY_CAPACITY_=2'],
     }
     procs = {}
     for k, cmd in jobs.items():
@@ -207,7 +213,7 @@ def call(exe: str, args: typing.List[str]) -> dict:
         p = _run([exe] + args, timeout=60, env=env)
     except subprocess.TimeoutExpired:
         return {'rc': 'timeout', 'out': '', 'report': 'timeout'}
-    m = re.search(r'(ERROR: \w+: [^\n]*|runtime error: [^\n]*)', p.stderr)
+    m = re.search(r'(ERROR: \w+: [^\n]*|runtime error: [^\n]*|[^\n]*Assertion[^\n]*failed[^\n]*)', p.stderr)
     rep = re.sub(r'0x[0-9a-f]+', '0x..', m.group(1)) if m else ''
     kv = dict(x.split('=', 1) for x in p.stdout.split() if '=' in x)
     return {'rc': p.returncode, 'out': p.stdout.strip(), 'report': rep, 'kv': kv, 'args': args}
